@@ -62,6 +62,9 @@ struct CertSpec {
     int unknownExt = 0;               // 0 none, 1 non-critical, 2 critical (private OID 1.3.6.1.4.1.55555.3.1)
     bool crlDp = false;               // add a cRLDistributionPoints URI (benign)
     // post-signing manipulation of the outer signature fields (TBS is left untouched)
+    // family mislabel: the signature is made by signKey with `hash` as usual, but BOTH algorithm identifiers (TBS and outer) name the
+    // other family: an EC signer is labelled <hash>WithRSAEncryption, an RSA signer ecdsa-with-<hash> (ignored for Ed25519 signers)
+    bool mislabelFamily = false;
     int sigOp = SIGOP_NONE;
     unsigned sigBit = 0;              // SIGOP_FLIPBIT: bit index (mod length)
     Bytes sigReplace;                 // SIGOP_REPLACE: new signature BIT STRING contents
@@ -74,6 +77,8 @@ bool mint_cert(const CertSpec &s, Minted &out, std::string *err);
 // Independent check (libcrypto X509_verify): does the signature on this DER certificate verify under pool key k?
 // 1 yes, 0 no, -1 could not decode.
 int verify_cert(const Bytes &der, int k);
+// Raw check that ignores the algorithm identifiers: is the signature BIT STRING a signature by pool key k over the TBS bytes with hash h?
+int verify_raw(const Bytes &der, int k, Hash h);
 
 struct CrlSpec {
     Name issuer;
